@@ -3,7 +3,8 @@
 (* (configuration + expected outcome) for replay on the real Graph::run.    *)
 EXTENDS Graph, Json
 
-ChainsSmall == { <<"src_eof", "sink">>, <<"src_wait", "sink">>,
+ChainsSmall == { <<"src_eof", "sink">>, <<"src_wait", "sink">>, <<"src_pending", "sink">>,
+                 <<"src_pending", "sync", "sink">>,
                  <<"src_eof", "sync", "sink">>, <<"src_eof", "mover_wait", "sink">>,
                  <<"src_eof", "dec2_wait", "sink">>, <<"src_wait", "sync", "sink">> }
 ChainsBig == ChainsSmall \cup
